@@ -570,6 +570,9 @@ def bindOk (s : State) : Option Nat → Bool
   | some i => (s.futs i).existed
   | none => true
 
+/-- ordinary code resumes the body of generator `g` (it is not done): the thread's queue is installed for the activation -/
+def genTouch (s : State) (g : Nat) : State := if (s.gens g).done then s else rqTouch s
+
 /-- one operation of ordinary code -/
 def step (fuel : Nat) (s : State) : Op → State
   | .fut i => if (s.futs i).existed then s else setFut s i { existed := true, alive := true }
@@ -602,7 +605,10 @@ def step (fuel : Nat) (s : State) : Op → State
   | .gen g heap n =>
       if (s.gens g).exist then s
       else setGen (allocFrame s heap) g { exist := true, heap := heap, next := 0, n := n, done := false }
-  | .gs g _ => if (s.gens g).exist then setGen s g (genStep (s.gens g)).1 else s
+  -- ordinary code steps the generator: `next_sync` / `next_future` resume its body under an installed queue (`resume_in_queue`,
+  -- /repo fix 191263e), i.e. the first such step on a thread that never used its ready queue constructs the deque; a generator
+  -- that is done is not resumed (`no_more_values`)
+  | .gs g _ => if (s.gens g).exist then setGen (genTouch s g) g (genStep (s.gens g)).1 else s
   | .gd g => killGen s g
   | .fin => opFin fuel s
 
